@@ -25,7 +25,13 @@ LEVEL_TEXT = ("Coq proofs about the executable model meek_model (textbook rules 
               "pairs, repeat while changed): UNBOUNDED — meek_only_orients (nodes, skeleton kept, directed edges kept, every new "
               "directed edge was an undirected edge), meek_terminates (fuel |U|+1 reaches a graph on which no rule fires, any "
               "sweep order list), meek_sound (every orientation holds in every consistent DAG extension; simple PDAG). "
-              "BOUNDED — meek_complete_on_patterns_bounded_5: for every DAG on <=5 nodes (1+1+3+25+543+29281) the closure of its "
+              "COMPLETENESS FOR ALL SIZES (Meek 1995 Thm 3) — meek_complete_on_patterns_all_sizes: for EVERY well-formed acyclic DAG d the "
+              "closure of its pattern equals the essential graph of the brute-force oracle; closure_directed_iff_essential_all_sizes "
+              "(directed edges of the closure = edges in every Markov equivalent DAG), closure_directed_iff_Der, "
+              "closure_chain_property (a -> b, b - c => a -> c). Route: closure = C04's derivation system Der (both inclusions, "
+              "C08/MeekDer.v, MeekChain.v), Der edges essential (C04/Chickering.v), every non-Der edge reversed in an equivalent DAG "
+              "(C04/ReversibleDer.v, built on the PEO theory of C08/Chordal.v), reflection of the oracle's class enumeration "
+              "(C08/MeekComplete.v). Also kept: BOUNDED — meek_complete_on_patterns_bounded_5: for every DAG on <=5 nodes (1+1+3+25+543+29281) the closure of its "
               "pattern equals the essential graph computed by brute-force enumeration of the Markov equivalence class "
               "(vm_compute; n=5 table-driven per skeleton with a proved-sound table, C08/Fast.v, 4 shards of ~1 min); "
               "meek_complete_on_patterns_bounded_5_every_dag lifts it to EVERY well-formed DAG on 0..n-1 with its own edge "
@@ -46,12 +52,10 @@ LEVEL_NOTE = ("the tie is differential (extracted model vs. implementation on ge
               "neighbors is modelled as V-order x V-order, the theorems hold for every order; "
               "measured kernel cost of n=5: naive check about 0.4 s per DAG (3 CPU-hours), table-driven with one v-structure "
               "signature per DAG 4.3 CPU-min in total; is_ext / has_extension are reflected to Spec.consistent_ext (soundness direction, C08/Reflect.v); essential_graph "
-              "stays a boolean oracle; unbounded completeness (Meek 1995 Thm 3) is proved only for DAGs without v-structures; for DAGs WITH v-structures "
-              "it is still missing: (a) the undirected components of the closure of a pattern are chordal, (b) an orientation of "
-              "those components (chordal_every_edge_orientable applies per component) combines with the directed part into a "
-              "consistent extension (needs: a -> b, b - c in the closure implies a -> c; true for closures of patterns, false with "
-              "background knowledge), neither formalised")
-TECHNIQUE = "Coq proof (invariants, unbounded; completeness bounded n<=5 by vm_compute) + extracted-model correspondence"
+              "stays a boolean oracle; unbounded completeness (Meek 1995 Thm 3) is proved for every DAG; NOT proved: completeness with background knowledge "
+              "(Meek Thm 4: the closure of a pattern plus extra orientations is the maximally oriented graph) — observed only by "
+              "the extracted oracle on the generated extendable PDAGs")
+TECHNIQUE = "Coq proof (invariants, unbounded; completeness on patterns for all sizes; bounded n<=5 kernel check kept) + extracted-model correspondence"
 
 
 def pattern_of(g):
